@@ -208,7 +208,7 @@ def chunk_worker(task):
             k = vkey(v['oracle'], v['sig'])
             ent = agg['viol'].get(k)
             if ent is None:
-                agg['viol'][k] = {'count': 1, 'first': dict(v), 'run': run, 'index': i}
+                agg['viol'][k] = {'count': 1, 'first': dict(v), 'run': run, 'index': i, 'pos': j}
             else:
                 ent['count'] += 1
     agg['states'] = sorted(agg['states'])
@@ -233,6 +233,40 @@ def shrink_worker(task):
     return shrink.minimise(scn, L, task['run'], task['key'], budget=task.get('budget', 300))
 
 
+def chunk_fails(scn, L, runs, key):
+    """Execute runs in order in THIS process; does the last one show the violation?"""
+    res = None
+    for r in runs:
+        res = scn.execute(L, r)
+    return res is not None and any(vkey(v['oracle'], v['sig']) == key for v in res['violations'])
+
+
+def _chunk_probe(task):
+    from . import scenarios
+    L = load_lentil()
+    scn = scenarios.get(task['scn'], task['prop'])
+    return chunk_fails(scn, L, task['runs'], task['key'])
+
+
+def shrink_chunk(scn_name, prop, runs, key, budget=40):
+    """The violation needs state left behind by earlier runs of the same process: keep the failing run, drop
+    as many predecessors as possible.  Every probe runs in a fresh fork (process state is the subject)."""
+    def fails(rs):
+        return fork_map(_chunk_probe, [{'scn': scn_name, 'prop': prop, 'runs': rs, 'key': key}], 1, 900)[0]
+    if not fails(runs):
+        raise HarnessError('violation %s reproduces neither from its run alone nor from the runs of its worker process' % key)
+    n = 0
+    i = 0
+    while i < len(runs) - 1 and n < budget:
+        cand = runs[:i] + runs[i + 1:]
+        n += 1
+        if fails(cand):
+            runs = cand
+        else:
+            i += 1
+    return runs
+
+
 # --------------------------------------------------------------------------- replay
 
 def replay_file(prop, path):
@@ -242,6 +276,14 @@ def replay_file(prop, path):
     data = json.load(open(path))
     if data.get('kind') == 'coldwarm':
         return replay_coldwarm(prop, data)
+    if data.get('kind') == 'chunk':
+        scn = scenarios.get(data['scenario'], data.get('property', prop))
+        want = data['violation']
+        res = None
+        for r in data['runs']:
+            res = scn.execute(L, r)
+        keys = [vkey(v['oracle'], v['sig']) for v in res['violations']] if res else []
+        return vkey(want['oracle'], want['sig']) in keys, (res['violations'] if res else [])
     scn = scenarios.get(data['scenario'], data.get('property', prop))
     res = scn.execute(L, data)
     want = data.get('violation')
@@ -360,7 +402,7 @@ def run_check(prop, tier, scn_name=None):
         for k, ent in r['viol'].items():
             cur = agg['viol'].get(k)
             if cur is None:
-                agg['viol'][k] = dict(ent)
+                agg['viol'][k] = dict(ent, task=t)
             else:
                 cur['count'] += ent['count']
     n_audits = len(audit_pairs)
@@ -434,10 +476,25 @@ def run_check(prop, tier, scn_name=None):
                         'violation': first}
                 data.update(ent['coldwarm'])
             else:
-                small = fork_map(shrink_worker, [{'scn': scn.name, 'prop': prop, 'run': ent['run'], 'key': k}],
-                                 1, 900)[0]
-                data = dict(small)
-                data.update({'kind': 'run', 'property': prop, 'scenario': scn.name, 'verif_seed': verif_seed,
+                try:
+                    small = fork_map(shrink_worker, [{'scn': scn.name, 'prop': prop, 'run': ent['run'], 'key': k}],
+                                     1, 900)[0]
+                    data = dict(small)
+                    data['kind'] = 'run'
+                except HarnessError as e:
+                    t = ent.get('task')
+                    if t is None or 'does not reproduce' not in str(e):
+                        raise
+                    # process-history dependent: replay the runs this worker process had executed before it
+                    pos = ent.get('pos', 0)
+                    if t.kind == 'given':
+                        runs = list(t.runs[:pos + 1])
+                    else:
+                        runs = [make_run(scn, prop, verif_seed, i) for i in t.indices[:pos + 1]]
+                    runs = shrink_chunk(scn.name, prop, runs, k)
+                    data = {'kind': 'chunk', 'runs': runs,
+                            'note': 'the violation needs state left in the process by the earlier runs listed here'}
+                data.update({'property': prop, 'scenario': scn.name, 'verif_seed': verif_seed,
                              'violation': {'oracle': first['oracle'], 'sig': first['sig'], 'detail': first['detail']}})
             name = '%s-%s-%08x.json' % (prop, first['oracle'].replace('.', '_'), derive_seed(k) & 0xffffffff)
             path = os.path.join(os.environ.get('LSIM_REPLAY_DIR') or os.path.join(VERIF, 'replays'), name)
@@ -451,6 +508,8 @@ def run_check(prop, tier, scn_name=None):
                 print('  detail: %s' % first['detail'])
                 if data.get('events') is not None:
                     print('  minimised to %d events' % len(data['events']))
+                if data.get('kind') == 'chunk':
+                    print('  needs process history: replay holds %d runs executed in order in one process' % len(data['runs']))
                 status = 1
             else:
                 harness_err = 'violation %s did not reproduce from %s in a fresh interpreter' % (k, path)
